@@ -108,6 +108,7 @@ SrcItem(it) ==
                       \o (IF it.hasDflt THEN <<"|", "#default", "=">> \o Src(it.dflt) ELSE <<>>) \o <<"}}">>
     [] it.k = "inv" -> <<"{{", "#invoke:", "M", "|", it.fn>> \o SrcArgs(it.args, 1) \o <<"}}">>
     [] it.k = "deep" -> <<"<ERR:depth>">>
+    [] it.k = "over" -> <<"<OVERRUN>">>
 
 ErrDepth == <<"<ERR:depth>">>
 DepthCut(st) == R(ErrDepth, Msg(st, "error", "core/1115"))
@@ -124,32 +125,39 @@ DepthCut(st) == R(ErrDepth, Msg(st, "error", "core/1115"))
 \*      DepthLimit deep in other cookies.  CutDeep is that pass seen as a rewriting of the
 \*      abstract syntax: what it refuses becomes the item [k |-> "deep"].
 \* Deviation "NestingOutsideCallsUnbounded" (the design before the repair): only {{..}}
-\* cookies met by expand_recurse are counted; the pass (2) and links are unbounded.
+\* cookies met by expand_recurse are counted; the pass (2) and links are unbounded.  The
+\* twin follows such uncounted nesting up to OverrunAt levels -- beyond what the ideal design
+\* can ever reach (law PeakBounded of Gen_ExpanderDepth) -- and then answers <OVERRUN>: from
+\* there on the outcome is the interpreter's business (RecursionError), not the design's.
 DeepItem == [k |-> "deep"]
+OverItem == [k |-> "over"]
+OverrunAt == 2 * DepthLimit + 8
+Overrun == <<"<OVERRUN>">>
 NestKinds == {"c", "if", "eq", "sw", "inv", "l", "x", "p", "pc"}
 CallsOnly(X) == "NestingOutsideCallsUnbounded" \in X.Dev
 
-RECURSIVE CutDeep(_, _), CutDeepItem(_, _), CutDeepArgs(_, _, _), CutDeepCases(_, _, _), CutDeepParts(_, _, _)
-CutDeep(c, d) == IF c = <<>> THEN <<>> ELSE <<CutDeepItem(Head(c), d)>> \o CutDeep(Tail(c), d)
-CutDeepArgs(args, i, d) ==
+RECURSIVE CutDeep(_, _, _), CutDeepItem(_, _, _), CutDeepArgs(_, _, _, _), CutDeepCases(_, _, _, _), CutDeepParts(_, _, _, _)
+\* m = [lim |-> levels admitted, mark |-> the item that replaces what is refused]
+CutDeep(c, d, m) == IF c = <<>> THEN <<>> ELSE <<CutDeepItem(Head(c), d, m)>> \o CutDeep(Tail(c), d, m)
+CutDeepArgs(args, i, d, m) ==
   IF i > Len(args) THEN <<>>
-  ELSE <<[args[i] EXCEPT !.key = CutDeep(@, d), !.val = CutDeep(@, d)]>> \o CutDeepArgs(args, i + 1, d)
-CutDeepCases(cs, i, d) ==
+  ELSE <<[args[i] EXCEPT !.key = CutDeep(@, d, m), !.val = CutDeep(@, d, m)]>> \o CutDeepArgs(args, i + 1, d, m)
+CutDeepCases(cs, i, d, m) ==
   IF i > Len(cs) THEN <<>>
-  ELSE <<(IF IsFT(cs[i]) THEN cs[i] ELSE [cs[i] EXCEPT !.val = CutDeep(@, d)])>> \o CutDeepCases(cs, i + 1, d)
-CutDeepParts(ps, i, d) == IF i > Len(ps) THEN <<>> ELSE <<CutDeep(ps[i], d)>> \o CutDeepParts(ps, i + 1, d)
-CutDeepItem(it, d) ==
+  ELSE <<(IF IsFT(cs[i]) THEN cs[i] ELSE [cs[i] EXCEPT !.val = CutDeep(@, d, m)])>> \o CutDeepCases(cs, i + 1, d, m)
+CutDeepParts(ps, i, d, m) == IF i > Len(ps) THEN <<>> ELSE <<CutDeep(ps[i], d, m)>> \o CutDeepParts(ps, i + 1, d, m)
+CutDeepItem(it, d, m) ==
   IF it.k \notin NestKinds THEN it
-  ELSE IF d >= DepthLimit THEN DeepItem
-  ELSE CASE it.k = "c" -> [it EXCEPT !.args = CutDeepArgs(@, 1, d + 1)]
-         [] it.k = "inv" -> [it EXCEPT !.args = CutDeepArgs(@, 1, d + 1)]
-         [] it.k = "if" -> [it EXCEPT !.c = CutDeep(@, d + 1), !.y = CutDeep(@, d + 1), !.n = CutDeep(@, d + 1)]
-         [] it.k = "eq" -> [it EXCEPT !.a = CutDeep(@, d + 1), !.b = CutDeep(@, d + 1), !.y = CutDeep(@, d + 1), !.n = CutDeep(@, d + 1)]
-         [] it.k = "sw" -> [it EXCEPT !.v = CutDeep(@, d + 1), !.cases = CutDeepCases(@, 1, d + 1), !.dflt = CutDeep(@, d + 1)]
-         [] it.k = "l" -> [it EXCEPT !.args = CutDeepParts(@, 1, d + 1)]
-         [] it.k = "x" -> [it EXCEPT !.c = CutDeep(@, d + 1)]
-         [] it.k = "p" -> [it EXCEPT !.def = CutDeep(@, d + 1)]
-         [] it.k = "pc" -> [it EXCEPT !.name = CutDeep(@, d + 1), !.def = CutDeep(@, d + 1)]
+  ELSE IF d >= m.lim THEN m.mark
+  ELSE CASE it.k = "c" -> [it EXCEPT !.args = CutDeepArgs(@, 1, d + 1, m)]
+         [] it.k = "inv" -> [it EXCEPT !.args = CutDeepArgs(@, 1, d + 1, m)]
+         [] it.k = "if" -> [it EXCEPT !.c = CutDeep(@, d + 1, m), !.y = CutDeep(@, d + 1, m), !.n = CutDeep(@, d + 1, m)]
+         [] it.k = "eq" -> [it EXCEPT !.a = CutDeep(@, d + 1, m), !.b = CutDeep(@, d + 1, m), !.y = CutDeep(@, d + 1, m), !.n = CutDeep(@, d + 1, m)]
+         [] it.k = "sw" -> [it EXCEPT !.v = CutDeep(@, d + 1, m), !.cases = CutDeepCases(@, 1, d + 1, m), !.dflt = CutDeep(@, d + 1, m)]
+         [] it.k = "l" -> [it EXCEPT !.args = CutDeepParts(@, 1, d + 1, m)]
+         [] it.k = "x" -> [it EXCEPT !.c = CutDeep(@, d + 1, m)]
+         [] it.k = "p" -> [it EXCEPT !.def = CutDeep(@, d + 1, m)]
+         [] it.k = "pc" -> [it EXCEPT !.name = CutDeep(@, d + 1, m), !.def = CutDeep(@, d + 1, m)]
 
 \* how deep cookies are nested in one another in a content (what one pass walks down)
 Max2(a, b) == IF a >= b THEN a ELSE b
@@ -159,7 +167,7 @@ SynDepthArgs(args, i) == IF i > Len(args) THEN 0 ELSE Max2(Max2(SynDepth(args[i]
 SynDepthCases(cs, i) == IF i > Len(cs) THEN 0 ELSE Max2((IF IsFT(cs[i]) THEN 0 ELSE SynDepth(cs[i].val)), SynDepthCases(cs, i + 1))
 SynDepthParts(ps, i) == IF i > Len(ps) THEN 0 ELSE Max2(SynDepth(ps[i]), SynDepthParts(ps, i + 1))
 SynDepthItem(it) ==
-  IF it.k \notin NestKinds THEN (IF it.k = "deep" THEN 1 ELSE 0)
+  IF it.k \notin NestKinds THEN (IF it.k \in {"deep", "over"} THEN 1 ELSE 0)
   ELSE 1 + (CASE it.k = "c" -> SynDepthArgs(it.args, 1)
               [] it.k = "inv" -> SynDepthArgs(it.args, 1)
               [] it.k = "if" -> Max2(SynDepth(it.c), Max2(SynDepth(it.y), SynDepth(it.n)))
@@ -171,8 +179,12 @@ SynDepthItem(it) ==
               [] it.k = "pc" -> Max2(SynDepth(it.name), SynDepth(it.def)))
 
 \* one argument-substitution pass over content c, started with path st.stack
-PassOver(c, X) == IF CallsOnly(X) THEN c ELSE CutDeep(c, 0)
-NotePass(st, c) == LET d == Len(st.stack) + SynDepth(c) IN IF d > st.peak THEN [st EXCEPT !.peak = d] ELSE st
+PassOver(c, X) == IF CallsOnly(X) THEN CutDeep(c, 0, [lim |-> OverrunAt, mark |-> OverItem])
+                  ELSE CutDeep(c, 0, [lim |-> DepthLimit, mark |-> DeepItem])
+NotePass(st, c) == LET sd == SynDepth(c)
+                       d == Len(st.stack) + sd
+                       s1 == IF d > st.peak THEN [st EXCEPT !.peak = d] ELSE st
+                   IN IF sd > OverrunAt THEN Msg(s1, "overrun", "model") ELSE s1   \* (only with the deviation)
 ErrLoop(name) == <<"<ERR:loop:", name, ">">>
 ErrLua(fn) == <<"<ERR:lua:", fn, ">">>
 ErrTimeout(fn) == <<"<ERR:timeout:", fn, ">">>
@@ -279,13 +291,16 @@ ExpItem(it0, f, ea, st0, X) ==
   IN
   CASE it.k = "t" -> R(it.s, st)
     [] it.k = "deep" -> DepthCut(st)
+    [] it.k = "over" -> R(Overrun, Msg(st, "overrun", "model"))
     (* ---- [[a|b]] and [http://x.y c]: path label pushed around the expansion of the parts -- *)
     [] it.k = "l" ->
          IF ~CallsOnly(X) /\ Len(st.stack) >= DepthLimit THEN DepthCut(st) ELSE
+         IF CallsOnly(X) /\ Len(st.stack) >= OverrunAt THEN R(Overrun, Msg(st, "overrun", "model")) ELSE
          LET r == ExpJoin(it.args, 1, f, ea, Push(st, Lbl("[[link]]")), X)
          IN R(<<"[[">> \o r.out \o <<"]]">>, Pop(r.st))
     [] it.k = "x" ->
          IF ~CallsOnly(X) /\ Len(st.stack) >= DepthLimit THEN DepthCut(st) ELSE
+         IF CallsOnly(X) /\ Len(st.stack) >= OverrunAt THEN R(Overrun, Msg(st, "overrun", "model")) ELSE
          LET r == Exp(it.c, f, ea, Push(st, Lbl("[extlink]")), X)
          IN R(<<"[", "http://x.y", "SP">> \o r.out \o <<"]">>, Pop(r.st))
     (* ---- {{{name|default}}} --------------------------------------------- *)
